@@ -43,7 +43,7 @@ def declare(reg, eng):
                  raises={"TypeError": {"when": [("C15", "not (isint(value) or isfloat(value))")]}})
     reg.contract("BoolType.validate", params=["self", "value"], types={"self": "BoolType"}, modifies=[],
                  ensures=[("C15", "isbool(result)"), ("C15", "implies(isbool(value), result == value)")])
-    reg.contract("PathType.validate", unreachable_ok=['return Path(value.get("$value"))'], params=["self", "value"], types={"self": "PathType"}, modifies=[],
+    reg.contract("PathType.validate", unreachable_ok=['return Path(value.get("$value"))', 'if isinstance(value, dict) and value.get("$type", None) == "path":   [never true]'], params=["self", "value"], types={"self": "PathType"}, modifies=[],
                  requires=["not isclass(value, dict)"],      # the {'$type': 'path'} legacy form is outside the property's constructor list
                  ensures=[("C15", "ispath(result)"), ("C15", "implies(ispath(value), result == value)"),
                           ("C15", "implies(isstr(value), result == Path(value))")],          # documented coercion: str -> path
